@@ -338,6 +338,12 @@ val rowR : z -> z -> z -> z -> z
 
 val rowL : z -> z -> z -> z -> z
 
+val mixA : z -> ((z * z) * z) -> (z * z) * z
+
+val mixB : z -> ((z * z) * z) -> (z * z) * z
+
+val mixC : z -> ((z * z) * z) -> (z * z) * z
+
 val lookup2_mix : ((z * z) * z) -> (z * z) * z
 
 val le_word : z list -> z
